@@ -4,7 +4,7 @@ from hypothesis import strategies as st
 from ..common import CaseInfo, Violation
 from ..oracles import Analysis
 from ..simharness import CancelLog, ExecutionLog, MarketStepBeginLog, OrderLog, run_case
-from ..strategies import crossing_pair, program_strategy, spec_strategy
+from ..strategies import market_names, crossing_pair, program_strategy, spec_strategy
 from ._sim_common import frac, summarize
 
 ID = "C16"
@@ -24,7 +24,7 @@ ASSUMPTIONS = ["a rule has one target (three cases in four) or both markets; wit
 
 @st.composite
 def cases(draw, tier):
-    names = ["M0", "M1"]
+    names = market_names(draw, 2)
     L = draw(st.integers(0, 6))
     rate = draw(st.sampled_from([0.005, 0.01, 0.02, 0.05, 0.1]))
     target = draw(st.sampled_from(names))
